@@ -44,6 +44,16 @@ def run(prog, rep, tier):
     if n < 8:
         raise AnalysisError(f"R4.5: only {n} Term(...) constructor sites found (floor 8)")
     r4_6(prog, rep)
+    # labels and columns of a group-specific block (e|g[l]): same product order, same groups, labels read from the training
+    # objects only (C05's R5.1, reported here as R4.1)
+    from . import C05
+    sub = rep.sub()
+    C05.r5_1(prog, sub)
+    for it in sub.items:
+        it = dict(it)
+        it["rule"] = "R4.1"
+        rep.items.append(it)
+        rep.counts["R4.1"] = rep.counts.get("R4.1", 0) + 1
     shared.dtype_narrowing(prog, rep, "R4.7")
     rep.floor("R4.1", 6)
     rep.floor("R4.2", 12)
@@ -344,7 +354,7 @@ def r4_4(prog, rep):
 def r4_6(prog, rep):
     from . import C17
 
-    sub = type(rep)(rep.prop)
+    sub = rep.sub()
     C17.r17_2(prog, sub)
     for it in sub.items:
         it = dict(it)
